@@ -137,13 +137,13 @@ xsurv0_pipe_init(void *arg, nni_pipe *npipe, void *s)
 	// for applying back pressure.  It would be nice if surveys carried
 	// an expiration with them, so that we could discard any that are
 	// not delivered before their expiration date.
-	if ((rv = nni_msgq_init(&p->sendq, 16)) != 0) {
-		xsurv0_pipe_fini(p);
-		return (rv);
-	}
-
 	p->npipe = npipe;
 	p->psock = s;
+
+	if ((rv = nni_msgq_init(&p->sendq, 16)) != 0) {
+		// The pipe is closed, stopped and finalized by our caller.
+		return (rv);
+	}
 	return (0);
 }
 
